@@ -1,0 +1,35 @@
+//go:build verif
+
+// Contracts for the deductive verifier in /verif (comment-only file; see /verif/DESIGN.md).
+
+package bitset
+
+//@ pure bsWF(s BitSet) bool = s.capacity <= 1 << 40 && uint(len(s.blocks)) == (s.capacity + 63) / 64
+//@ pure bsHas(s BitSet, i uint) bool = s.blocks[i / 64] & (uint(1) << (i % 64)) != 0
+
+//@ func (BitSet).checkIndex
+//@   requires index < s.capacity
+//@   modifies nothing
+
+//@ func (BitSet).IsSet
+//@   requires bsWF(s) && index < s.capacity
+//@   modifies nothing
+//@   ensures result == bsHas(s, index)
+
+//@ func (BitSet).Set
+//@   requires bsWF(s) && index < s.capacity
+//@   modifies s.blocks[*]
+//@   ensures bsHas(s, index)
+//@   ensures forall j uint :: j != index && j < s.capacity ==> bsHas(s, j) == old(bsHas(s, j))
+
+//@ func (BitSet).Unset
+//@   requires bsWF(s) && index < s.capacity
+//@   modifies s.blocks[*]
+//@   ensures !bsHas(s, index)
+//@   ensures forall j uint :: j != index && j < s.capacity ==> bsHas(s, j) == old(bsHas(s, j))
+
+//@ func NewBitSet
+//@   requires capacity <= 1 << 40
+//@   modifies nothing
+//@   ensures bsWF(result) && result.capacity == capacity
+//@   ensures forall j uint :: j < capacity ==> !bsHas(result, j)
